@@ -1584,3 +1584,292 @@ def e2e_split(rng, raw):
         last = c
     out.append(raw[last:])
     return out
+
+
+# (2) S-fspec: the extracted functional specification (Spec/ProxySpec.v: refusal_reason, category_header,
+#     spec_out, wf_headers; runner ocaml/proxyfs, no model code in it) against the REAL middleware,
+#     on every key of the environ / the header named in the 400.
+
+def fspec_eligible(env, cfg):
+    return is_trusted_path(env, cfg) and cfg.count >= 1 and "wsgi.url_scheme" in env
+
+
+def fspec_keys(env):
+    return sorted(set(env) | set(META_KEYS) | set(PROXY_KEYS))
+
+
+def fspec_batch(runner, cases):
+    """-> list of ('mal', category, header, wf) | ('ok', wf, {key: value or None})"""
+    lines = []
+    keysl = []
+    for env, cfg in cases:
+        keys = fspec_keys(env)
+        keysl.append(keys)
+        tph = "N" if cfg.tph is None else "S:" + ",".join(hx(x) for x in sorted(cfg.tph))
+        lines.append("fs %d %s %d %d %s %s" % (cfg.count, tph, 1 if cfg.clear else 0, len(keys),
+                                               " ".join(hx(k) for k in keys), env_words(env)))
+    out = []
+    for keys, line in zip(keysl, runner.query(lines)):
+        w = line.split(" ")
+        if w[0] == "mal":
+            out.append(("mal", w[1], unhx(w[2]), w[3] == "1"))
+        elif w[0] == "ok":
+            vals = {}
+            for k, v in zip(keys, w[2:]):
+                vals[k] = None if v == "N" else unhx(v[2:])
+            out.append(("ok", w[1] == "1", vals))
+        else:
+            out.append(("specerr", line))
+    return out
+
+
+def fspec_compare(real, ans):
+    """-> None when the real outcome is what the specification says, else a description"""
+    if ans[0] == "mal":
+        if real[0] == "mal" and real[1] == ans[2]:
+            return None
+        return "specification: 400 naming %r (category %s); implementation: %s" % (ans[2], ans[1], short(real))
+    if ans[0] != "ok":
+        return "specification runner error: %r" % (ans,)
+    if real[0] != "ok":
+        return "specification: accepted; implementation: %s" % short(real)
+    want = ans[2]
+    out = real[1]
+    for k in sorted(set(want) | set(out)):
+        if out.get(k) != want.get(k):
+            return "%s: specification %r, implementation %r" % (k, want.get(k), out.get(k))
+    return None
+
+
+def fspec_expected_json(ans):
+    if ans[0] == "mal":
+        return {"outcome": "400", "header": ans[2], "category": ans[1]}
+    if ans[0] == "ok":
+        return {"outcome": "ok", "environ_hex": {k: (None if v is None else hx(v)) for k, v in ans[2].items()}}
+    return {"outcome": "specerr"}
+
+
+def fspec_replay(data):
+    env = env_from_json(data["environ_hex"])
+    cfg = cfg_from_json(data["config"])
+    exp = data["expected_spec"]
+    real = real_middleware(env, cfg)
+    if exp["outcome"] == "400":
+        ans = ("mal", exp.get("category"), exp["header"], False)
+    else:
+        ans = ("ok", False, {k: (None if v is None else unhx(v)) for k, v in exp["environ_hex"].items()})
+    d = fspec_compare(real, ans)
+    print("config=%s headers=%r\n %s" % (data["config"], data.get("proxy_headers"), d or "agrees with the specification now"))
+    return 1 if d else 0
+
+
+# (3) generators forced by the hypotheses of the proofs (C16 extension): per-element omitted parameters,
+#     mixed-case parameter names, quoted values with escapes, bracketed IPv6 with ports, obfuscated
+#     identifiers, empty list members, OWS variants, very long lists, counts 1..5 x lengths below/at/above.
+
+OWS2 = ["", "", " ", "\t", "  ", " \t ", "\t\t"]
+NODE2 = ["192.0.2.%d", '"192.0.2.%d:4711"', '"[2001:db8::%d]"', '"[2001:db8::%d]:8443"', "_obf%d", '"_obf%d:_p9"',
+         "unknown", '"unknown:99"', '"a\\\\b%d"', '"q\\"%d"', '"\\1\\9\\2.0.2.%d"', "[2001:db8::%d]", '"[::%d]:1"',
+         '"10.1.%d.1: 8"', '" 10.1.%d.1"', "CLIENT%d.Example"]
+HOST2 = ["h%d.example", '"h%d.example:8443"', '"H%d.Example:80"', '"[2001:db8::%d]:443"', '"[2001:db8::%d]"', '"h%d:443"',
+         '"h\\%d.example"', "h%d.example:80", "h%d.example:", '"h%d.example :81"']
+PROTO2 = ["http", "https", "HTTP", "hTTps", '"https"', '"HT\\TP"', '"http"']
+NAME_CASE = [str.lower, str.upper, str.capitalize, lambda s: s[:-1] + s[-1:].upper()]
+
+
+def gen_fwd_element_x(rng, i, mask=None):
+    """one forwarded-element with element-specific values; mask: which of for/host/proto/by are present"""
+    if mask is None:
+        mask = rng.randrange(16)
+    pairs = []
+    if mask & 1:
+        pairs.append(("for", rng.choice(NODE2)))
+    if mask & 2:
+        pairs.append(("host", rng.choice(HOST2)))
+    if mask & 4:
+        pairs.append(("proto", rng.choice(PROTO2)))
+    if mask & 8:
+        pairs.append(("by", rng.choice(NODE2)))
+    rng.shuffle(pairs)
+    out = []
+    for name, v in pairs:
+        if "%d" in v:
+            v = v % ((i * 7 + rng.randint(1, 6)) % 250 + 1)
+        out.append(rng.choice(NAME_CASE)(name) + "=" + v)
+    r = rng.random()
+    if r < 0.10:
+        out.insert(rng.randint(0, len(out)), rng.choice(["ext=1", 'Secret="x;y"', "", "a.b=c", 'x="\\""']))
+    elif r < 0.14 and out:       # the same parameter twice: the last one wins, also when it is empty
+        out.append(rng.choice(["for=", 'host=""', "proto=", "for=_again", 'Host="again.example:1"']))
+    return ";".join(out)
+
+
+def gen_forwarded_x(rng, n):
+    els = []
+    for i in range(n):
+        r = rng.random()
+        if r < 0.05:
+            els.append("")                   # empty list member
+        elif r < 0.08:
+            els.append(rng.choice(OWS2))
+        else:
+            els.append(rng.choice(OWS2) + gen_fwd_element_x(rng, i) + rng.choice(OWS2))
+    return ",".join(els)
+
+
+def gen_xlist_x(rng, n, vals):
+    els = []
+    for i in range(n):
+        r = rng.random()
+        if r < 0.05:
+            els.append(rng.choice(["", " ", "\t"]))
+        else:
+            v = rng.choice(vals)
+            if "%d" in v:
+                v = v % ((i * 7 + rng.randint(1, 6)) % 250 + 1)
+            els.append(rng.choice(OWS2) + v + rng.choice(OWS2))
+    return ",".join(els)
+
+
+def _benv(rng=None):
+    e = {"REMOTE_ADDR": PEER, "REMOTE_HOST": PEER, "REMOTE_PORT": "5555", "SERVER_NAME": "backend.internal",
+         "SERVER_PORT": "8080", "HTTP_HOST": "backend.internal:8080", "wsgi.url_scheme": "http", "PATH_INFO": "/"}
+    if rng is not None:
+        e["wsgi.url_scheme"] = rng.choice(["http", "https"])
+        if rng.random() < 0.3:
+            del e["HTTP_HOST"]
+    return e
+
+
+def ext_cases(rng, tier):
+    """structured cases of the extension -> list of (env, cfg)"""
+    quick = tier == "quick"
+    out = []
+    fw = frozenset(["forwarded"])
+    # (a) every presence mask of (for, host, proto) in a 2-element Forwarded value x counts 1..3, distinct values per element
+    for m0 in range(8):
+        for m1 in range(8):
+            for k in (1, 2, 3):
+                els = []
+                for i, m in enumerate((m0, m1)):
+                    ps = []
+                    if m & 1:
+                        ps.append("for=192.0.2.%d" % (i + 1))
+                    if m & 2:
+                        ps.append('host="el%d.example:%d"' % (i, 7000 + i))
+                    if m & 4:
+                        ps.append("proto=" + ("https" if i == 0 else "http"))
+                    els.append(";".join(ps))
+                e = _benv()
+                e["HTTP_FORWARDED"] = ", ".join(els)
+                out.append((e, Cfg(PEER, k, fw, True)))
+    # (b) three elements, random masks, counts 1..5 (below / at / above the length)
+    for _ in range(250 if quick else 4000):
+        n = rng.choice([1, 2, 3, 3, 4, 5, 6])
+        e = _benv(rng)
+        e["HTTP_FORWARDED"] = ",".join(rng.choice(["", " "]) + gen_fwd_element_x(rng, i, rng.randrange(16)) for i in range(n))
+        out.append((e, Cfg(PEER, rng.randint(1, 5), fw, rng.random() < 0.7)))
+    # (c) grammar-driven Forwarded values with empty members / OWS / escapes / IPv6 / obfuscated identifiers
+    for _ in range(700 if quick else 15000):
+        e = _benv(rng)
+        e["HTTP_FORWARDED"] = gen_forwarded_x(rng, rng.choice([1, 2, 3, 4, 5, 6, 7]))
+        if rng.random() < 0.3:
+            e["HTTP_X_FORWARDED_FOR"] = gen_xlist_x(rng, rng.randint(1, 3), NODE2)
+        out.append((e, Cfg(rng.choice([PEER, "*"]), rng.randint(1, 5), fw, rng.random() < 0.7)))
+    # (d) the X-Forwarded-* family from the same vocabulary, every subset of the five kinds
+    for _ in range(700 if quick else 15000):
+        tph = frozenset(k for k in XF_KINDS if rng.random() < 0.6)
+        e = _benv(rng)
+        if rng.random() < 0.9:
+            e["HTTP_X_FORWARDED_FOR"] = gen_xlist_x(rng, rng.choice([1, 1, 2, 3, 4, 5, 6]), NODE2)
+        if rng.random() < 0.9:
+            e["HTTP_X_FORWARDED_HOST"] = gen_xlist_x(rng, rng.choice([1, 1, 2, 3, 4, 5, 6]), HOST2)
+        if rng.random() < 0.8:
+            e["HTTP_X_FORWARDED_PROTO"] = rng.choice(PROTO2 + ["", "ftp", "http,https", '"']) if rng.random() < 0.9 else fuzz(rng)
+        if rng.random() < 0.8:
+            e["HTTP_X_FORWARDED_PORT"] = rng.choice(["80", "443", "8080", '"8443"', '"4\\43"', "", "80,443", "0443", " 80"])
+        if rng.random() < 0.3:
+            e["HTTP_X_FORWARDED_BY"] = rng.choice(BY_VALS)
+        if rng.random() < 0.3:
+            e["HTTP_FORWARDED"] = gen_forwarded_x(rng, 2)
+        out.append((e, Cfg(PEER, rng.randint(1, 5), tph, rng.random() < 0.7)))
+    # (e) very long lists (the indexing law far from the small box), every count 1..5
+    for n in ([40, 257] if quick else [40, 257, 1000, 3000]):
+        for k in (1, 2, 3, 4, 5):
+            e = _benv()
+            e["HTTP_X_FORWARDED_FOR"] = ", ".join("10.%d.%d.%d" % (i >> 16 & 255, i >> 8 & 255, i & 255) for i in range(n))
+            e["HTTP_X_FORWARDED_HOST"] = ",".join("n%d.example:%d" % (i, 1000 + i % 50000) for i in range(n))
+            out.append((e, Cfg(PEER, k, frozenset(["x-forwarded-for", "x-forwarded-host"]), True)))
+            e = _benv()
+            e["HTTP_FORWARDED"] = ",".join(
+                (("for=10.%d.%d.%d" % (i >> 16 & 255, i >> 8 & 255, i & 255)) if i % 3 else "by=_b%d" % i)
+                + (";host=n%d.example" % i if i % 2 else "") + (";proto=https" if i % 5 == 0 else "") for i in range(n))
+            out.append((e, Cfg(PEER, k, fw, True)))
+    # (f) HTTP_HOST formatting: host without port x (scheme before, forwarded proto, forwarded port)
+    for sch in ("http", "https"):
+        for pr in (None, "http", "https", "HTTPS"):
+            for po in (None, "", "80", "443", "8080", "080", '"443"'):
+                for h in ("h.example", "h.example:80", "h.example:443", "h.example:", "[::1]", "[::1]:443"):
+                    e = _benv()
+                    e["wsgi.url_scheme"] = sch
+                    tph = {"x-forwarded-host"}
+                    e["HTTP_X_FORWARDED_HOST"] = h
+                    if pr is not None:
+                        e["HTTP_X_FORWARDED_PROTO"] = pr
+                        tph.add("x-forwarded-proto")
+                    if po is not None:
+                        e["HTTP_X_FORWARDED_PORT"] = po
+                        tph.add("x-forwarded-port")
+                    out.append((e, Cfg(PEER, 1, frozenset(tph), True)))
+                    if pr is not None and po is None:
+                        e2 = _benv()
+                        e2["wsgi.url_scheme"] = sch
+                        e2["HTTP_FORWARDED"] = 'for=1.2.3.4;host="%s";proto=%s' % (h, pr)
+                        out.append((e2, Cfg(PEER, 1, fw, True)))
+    return out
+
+
+# (4) headers drawn from the grammar of well-formed values (Spec.wf_headers): all must be accepted
+
+WF_NODE = ["192.0.2.%d", "192.0.2.%d:4711", "[2001:db8::%d]", "[2001:db8::%d]:8443", "_obf%d", "unknown", "c%d.example",
+           "2001:db8::%d", "h-%d_x.example:80"]
+WF_HOSTS = ["h%d.example", "h%d.example:8443", "[2001:db8::%d]:443", "H%d.Example", "h%d:80"]
+
+
+def _wfv(rng, v, i):
+    if "%d" in v:
+        v = v % (i % 200 + 1)
+    return '"%s"' % v if rng.random() < 0.4 else v
+
+
+def gen_wf_case(rng):
+    e = _benv(rng)
+    if rng.random() < 0.45:
+        n = rng.randint(1, 6)
+        els = []
+        for i in range(n):
+            ps = []
+            if rng.random() < 0.7:
+                ps.append(rng.choice(["for", "For", "FOR"]) + "=" + _wfv(rng, rng.choice(WF_NODE), i))
+            if rng.random() < 0.5:
+                ps.append(rng.choice(["host", "Host"]) + "=" + _wfv(rng, rng.choice(WF_HOSTS), i))
+            if rng.random() < 0.5:
+                ps.append("proto=" + _wfv(rng, rng.choice(["http", "https", "HTTPS"]), i))
+            if rng.random() < 0.3:
+                ps.append("by=" + _wfv(rng, rng.choice(WF_NODE), i))
+            if rng.random() < 0.15:
+                ps.append(rng.choice(["ext=1", "a.b=c-d", ""]))
+            rng.shuffle(ps)
+            els.append(rng.choice(OWS2) + ";".join(ps) + rng.choice(OWS2))
+        e["HTTP_FORWARDED"] = ",".join(els)
+        return e, Cfg(PEER, rng.randint(1, 5), frozenset(["forwarded"]), rng.random() < 0.7)
+    tph = frozenset(k for k in XF_KINDS if rng.random() < 0.7)
+    if rng.random() < 0.9:
+        e["HTTP_X_FORWARDED_FOR"] = ",".join(rng.choice(OWS2) + _wfv(rng, rng.choice(WF_NODE), i) + rng.choice(OWS2) for i in range(rng.randint(1, 6)))
+    if rng.random() < 0.9:
+        e["HTTP_X_FORWARDED_HOST"] = ",".join(rng.choice(OWS2) + _wfv(rng, rng.choice(WF_HOSTS), i) + rng.choice(OWS2) for i in range(rng.randint(1, 6)))
+    if rng.random() < 0.8:
+        e["HTTP_X_FORWARDED_PROTO"] = _wfv(rng, rng.choice(["http", "https", "HTTPS", "Http"]), 0)
+    if rng.random() < 0.8:
+        e["HTTP_X_FORWARDED_PORT"] = _wfv(rng, rng.choice(["80", "443", "8080", "0", "65535"]), 0)
+    return e, Cfg(PEER, rng.randint(1, 5), tph, rng.random() < 0.7)
